@@ -66,6 +66,20 @@ def to_input(t, v, form, buf=None):
     """python input for value v of type t. form: 'py' plain python data, 'np' numpy where possible,
     'xobj' another xobject (built in buffer `buf` or a fresh one)"""
     kk = t["k"]
+    if isinstance(v, dict) and "wrong" in v:      # deliberate misuse: a value of the wrong kind
+        return {"dict": {}, "none": None, "obj": object()}[v["wrong"]]
+    if form == "xobj_oo" and kk == "array":
+        # an xobjects array of the same items and shape but ANOTHER axis order (another class of the same name)
+        nd = len(t["shape"]); c_order = list(range(nd))
+        t2 = dict(t); t2["order"] = c_order if list(t["order"]) != c_order else c_order[::-1]
+        T2 = build(t2)
+        inner = to_input(t, v, "py")
+        return T2(inner) if buf is None else T2(inner, _buffer=buf)
+    if form == "np_be":
+        x = to_input(t, v, "np")
+        if hasattr(x, "dtype") and x.dtype.itemsize > 1:
+            x = x.astype(x.dtype.newbyteorder(">"))      # same numbers, non-native byte order
+        return x
     if form == "xobj" and kk in ("string", "struct", "array"):
         T = build(t)
         inner = to_input(t, v, "py")
